@@ -9,9 +9,10 @@ Space (everything below is enumerated completely, nothing is sampled)
              (P,  for PRINT)  every member of the family with <= n snippets of the WHOLE 27-snippet alphabet (every
              directive type: open, close, commodity, pad, balance, transaction, note, event, query, price, document,
              custom); quick n <= 2 (379 ledgers), thorough n <= 3 (3 304)
-             + three ledgers outside the bound, for all three statements: the full alphabet, the full alphabet
-             without pad / plugin (round trip over every directive type at once), and LONGTEXT (payees /
-             narrations shorter than, equal to and longer than the register's widths 48 / 80)
+             + four ledgers outside the bound, for all three statements: the full alphabet, the full alphabet
+             without pad / plugin (round trip over every directive type at once), LONGTEXT (payees /
+             narrations shorter than, equal to and longer than the register's widths 48 / 80), and ZEROCOST (lots
+             booked at a per-unit cost of exactly zero next to an ordinary lot, one of them reduced)
   BALANCES   AT f in {absent, units, cost}  x  FROM menu  x  WHERE in {absent, account ~ 'Assets', number > 0,
              currency = 'USD'}
   JOURNAL    account pattern in {absent, '', 'Assets', 'Assets:Cash|Expenses', 'NoSuchAccount' (matches nothing),
@@ -26,7 +27,8 @@ Space (everything below is enumerated completely, nothing is sampled)
   PRINT      FROM in: absent; type = T for each of the 12 directive types; type != 'transaction'; NOT type = 'open';
              NOT (type = 'transaction' OR type = 'price'); year = 2019, year = 2020, NOT year = 2019,
              date < 2020-01-10, date >= 2020-02-01, type = 'transaction' AND date < 2020-01-10; flag = '*', flag = '!',
-             payee ~, narration ~, has_account('Expenses'), has_account('cash'), NOT has_account('Cash'); the
+             payee ~, narration ~, has_account('Expenses'), has_account('cash'), NOT has_account('Cash');
+             'food' / 'ntag' IN tags, 'trip' / 'dlink' IN links, 'food' NOT IN tags, alone and with type = ...; the
              OPEN/CLOSE/CLEAR list, alone and under three expressions   (per ledger: quick 57, thorough 282)
   text       every distinct statement of the menus is unparsed (vt.unparse), parsed by the real parser and must
              give exactly the AST that is executed (so that feeding ASTs is the same as feeding text).
@@ -67,6 +69,10 @@ Scope / weakest readings
     the padding transaction a second time) and without the plugin, FROM absent / type filters / date-prefix filters
     (they keep every lot reduction together with its augmentation); validation errors "unknown / inactive account"
     on re-loading a selection without its ``open`` directives are not counted.
+  * PRINT filters on ``tags`` / ``links`` ('x' [NOT] IN tags|links): the property does not say what these columns
+    hold for a Note / Document directive, which has tags and links of its own in Beancount v3: NULL ("the set of
+    tags of the transaction") or the directive's own set.  Both selections are accepted (C11 reads the entries table
+    the same way); transactions are judged strictly.
   * Invalid regular expressions and a CLOSE date before the OPEN date are C05 / C13 material, not explored here.
 Harness note: compiler.transform_balances / transform_journal re-parse a template text on every compile (70-120 ms).
   During this check ``beanquery.parser.parse`` is memoised BY TEXT (a pure function; every distinct text still goes
@@ -139,6 +145,27 @@ LONGTEXT = ledgers.PREAMBLE + f'''\
   Assets:Cash
 '''
 assert (len(_P60), len(_N100), len(_P48), len(_N80)) == (60, 100, 48, 80)
+
+#: lots booked at a per-unit cost of exactly ZERO (gift, stock grant, airdrop) next to an ordinary lot: the cost of
+#: such a position is 0 of the cost currency, not its units
+ZEROCOST = ledgers.PREAMBLE + '''\
+2020-01-04 * "Opening balance"
+  Assets:Cash  1000.00 USD
+  Equity:Opening-Balances
+2020-01-05 * "Broker" "Buy an ordinary lot"
+  Assets:Inv  4 HOOL {100.00 USD}
+  Assets:Cash  -400.00 USD
+2020-01-20 * "ACME" "Stock grant booked at zero cost"
+  Assets:Inv  10 HOOL {0.00 USD}
+  Income:Salary  0.00 USD
+2020-02-05 * "Broker" "Sell granted shares"
+  Assets:Inv  -5 HOOL {0.00 USD} @ 120.00 USD
+  Assets:Cash  600.00 USD
+  Income:Gains  -600.00 USD
+2020-02-06 * "Airdrop"
+  Assets:Inv  3 HOOL {0 USD, "drop"}
+  Income:Gains  0 USD
+'''
 
 
 # ---------------------------------------------------------------------------------------------------------
@@ -286,6 +313,41 @@ _expr("type = 'transaction' AND date < 2020-01-10",
 BJ_EXPRS = ['none', 'year = 2020', 'date < 2020-01-10', 'date >= 2020-02-01', "flag = '*'", f"payee ~ '{PAYEE_RE}'",
             f"narration ~ '{NARR_RE}'", "has_account('Expenses')", "NOT has_account('Cash')",
             "year = 2020 AND NOT has_account('Inv')"]
+
+
+def p_in(attr, value, negate=False, own=False):
+    """'<value>' [NOT] IN tags|links.  own=False: the column is the TRANSACTION's set (NULL for other directives);
+    own=True: Note / Document directives show their own tags / links.  NULL set -> NULL."""
+    def pred(e):
+        v = getattr(e, attr, None) if (own or _txn(e)) else None
+        return None if v is None else ((value in v) != negate)
+    return pred
+
+
+#: name -> predicate of the second accepted reading (see "weakest readings": tags / links of a Note / Document)
+ALT_PREDS = {}
+
+
+def _expr_in(attr, value, negate=False):
+    name = f"'{value}' {'NOT IN' if negate else 'IN'} {attr}"
+    node = A.NotIn if negate else A.In
+    _expr(name, lambda: node(C(value), col(attr)), p_in(attr, value, negate))
+    ALT_PREDS[name] = p_in(attr, value, negate, own=True)
+
+
+_expr_in('tags', 'food')
+_expr_in('tags', 'ntag')
+_expr_in('links', 'trip')
+_expr_in('links', 'dlink')
+_expr_in('tags', 'food', negate=True)
+_expr("type = 'transaction' AND 'food' NOT IN tags",
+      lambda: A.And([A.Equal(col('type'), C('transaction')), A.NotIn(C('food'), col('tags'))]),
+      lambda e: _txn(e) and e.tags is not None and 'food' not in e.tags)
+_expr("type = 'note' AND 'ntag' IN tags",
+      lambda: A.And([A.Equal(col('type'), C('note')), A.In(C('ntag'), col('tags'))]),
+      lambda e: False)
+ALT_PREDS["type = 'note' AND 'ntag' IN tags"] = lambda e: isinstance(e, data.Note) and e.tags is not None and 'ntag' in e.tags
+
 PRINT_EXPRS = list(EXPRS)
 
 #: (open, close, clear) subsets of the quick tier; close True = CLOSE without a date
@@ -679,6 +741,13 @@ class Checker:
             acc.add('printed_types', _type(e))
             if _txn(e) and e.flag not in '*!':
                 acc.add('printed_synthetic_flags', e.flag)
+        if got != want and spec[0] in ALT_PREDS:
+            alt = [e for e in led.universe(spec) if ALT_PREDS[spec[0]](e) is True]
+            buf = io.StringIO()
+            printer.print_entries(alt, dcontext, file=buf)
+            if got == buf.getvalue():
+                acc.count('print_second_reading_accepted')
+                want_entries, want = alt, got
         if got != want:
             heads = [ln for ln in got.splitlines() if re.match(r'\d{4}-\d\d-\d\d ', ln)]
             wheads = [ln for ln in want.splitlines() if re.match(r'\d{4}-\d\d-\d\d ', ln)]
@@ -777,11 +846,13 @@ def extra_ledger(name, seed):
     if name == 'FULL-NOPAD':
         names = [n for n in ledgers.NAMES if n not in NO_ROUNDTRIP]
         return Ledger('FULL-ALPHABET-WITHOUT-PAD-AND-PLUGIN', ledgers.text_of(names, seed), {'ledger': {'extra': 'FULL-NOPAD'}, 'seed': seed}, True)
+    if name == 'ZEROCOST':
+        return Ledger('ZEROCOST', ZEROCOST, {'ledger': {'extra': 'ZEROCOST'}, 'seed': seed}, True)
     assert name == 'LONGTEXT'
     return Ledger('LONGTEXT', LONGTEXT, {'ledger': {'extra': 'LONGTEXT'}, 'seed': seed}, True)
 
 
-EXTRAS = ['FULL', 'FULL-NOPAD', 'LONGTEXT']
+EXTRAS = ['FULL', 'FULL-NOPAD', 'LONGTEXT', 'ZEROCOST']
 
 
 def text_phase(acc, shard, nshards, thorough):
@@ -956,6 +1027,7 @@ def run(ctx):
         'journal_truncated_cells': c['journal_truncated_cells'],
         'journal_final_balance_empty': c['journal_final_balance_empty'],
         'print_proper_selections': c['print_proper_selections'],
+        'print_tags_links_filters_matching_the_second_reading_only': c['print_second_reading_accepted'],
         'printed_directive_types': sorted(acc.sets['printed_types']),
         'printed_synthetic_transaction_flags': sorted(acc.sets['printed_synthetic_flags']),
         'distinct_balances_results': len(acc.sets['balances_outcomes']),
@@ -970,6 +1042,8 @@ def run(ctx):
         'direct BALANCES check: an account whose selected postings sum to the empty inventory may be listed or omitted',
         'register payee / narration longer than 48 / 80: directly only "not longer than the width"; the differential uses maxwidth',
         'a row is selected iff the FROM / WHERE expression is TRUE; NOT / AND / OR only over operands that cannot be NULL',
+        'PRINT filters on tags / links: for Note / Document directives the column may be NULL (the transaction\'s set) or the '
+        'directive\'s own tags / links; either selection is accepted (C11 takes the same weakest reading)',
         'OPEN / CLOSE / CLEAR: the universe is entries-table.update(open, close, clear).prepare() of the real tables (C13 owns the summarisation)',
         'PRINT round trip only for ledgers without pad_balance / plugin and for FROM absent, type filters and date-prefix filters; '
         'validation errors about unopened accounts on re-loading are tolerated; hash_entry(exclude_meta=True) plus user metadata',
